@@ -35,6 +35,8 @@ TABLES = {
     'nonascii-names': [('r0', [('é😀', 'string'), ('ü', 'integer')], [{'é😀': 'x', 'ü': 1}])],
     'long': [('r0', [('i', 'integer'), ('s', 'string')], [{'i': k, 's': 'row-%05d-%s' % (k, 'x' * 20)} for k in range(700)])],
     'two': [('r0', [('i', 'integer')], [{'i': 1}]), ('r1', [('s', 'string')], [{'s': 'é'}, {'s': None}])],
+    # resources whose paths have a directory part (set in check())
+    'nested-paths': [('r0', [('i', 'integer')], [{'i': 1}]), ('r1', [('s', 'string')], [{'s': 'é'}, {'s': None}])],
     'three': [('r0', [('i', 'integer')], [{'i': 1}, {'i': 2}, {'i': 3}]), ('r1', [('s', 'string')], []), ('r2', [('n', 'number')], [{'n': 0.5}])],
 }
 
@@ -55,9 +57,17 @@ def names_for(counters):
     return n
 
 
+def table_state(table):
+    st = dumps.build_state(copy.deepcopy(TABLES[table]))
+    if table == 'nested-paths':
+        for k, r in enumerate(st.desc['resources']):
+            r['path'] = 'data/sub%d/%s.csv' % (k, r['name']) if k else 'data/%s.csv' % r['name']
+    return st
+
+
 def check(case):
     cfg = case['cfg']
-    st = dumps.build_state(copy.deepcopy(TABLES[case['table']]))
+    st = table_state(case['table'])
     opts = {'format': cfg['format']}
     if COUNTERS[cfg['counters']] is not None:
         opts['counters'] = copy.deepcopy(COUNTERS[cfg['counters']])
@@ -147,7 +157,7 @@ def check(case):
         if stats.get('hash') != ph:
             V('stats-hash', 'process() stats hash=%r, written descriptor %r' % (stats.get('hash'), ph))
         # dumping the same data twice gives identical hashes
-        wdesc2, stats2, root2 = one('second', dumps.build_state(copy.deepcopy(TABLES[case['table']])))
+        wdesc2, stats2, root2 = one('second', table_state(case['table']))
         h1 = [get_attr(r, nm['resource-hash']) for r in wdesc['resources']] + [ph]
         h2 = [get_attr(r, nm['resource-hash']) for r in wdesc2['resources']] + [get_attr(wdesc2, nm['datapackage-hash'])]
         if h1 != h2:
